@@ -3,10 +3,22 @@
     Every [g_...] below is GENERATED from today's math.py / vmf.py / instancing.py (Gen/C17Formulas_gen.v) by
     symbolic execution of the Python method bodies; [place], [vrot], [mmul], [uvplace], [texcoord], [orth] are the
     hand-written specification (Rot/C17Base.v).  Arithmetic is over R: floating-point rounding is outside the model. *)
-From Coq Require Import Reals NArith List.
+From Coq Require Import Reals NArith ZArith List.
 From SV Require Import Rot.C17Base SM.C17Name SM.C17Rounds Gen.C17Formulas_gen
                        Rot.C17GeomProofs SM.C17NameProofs SM.C17RoundsProofs.
 Import ListNotations.
+
+(** Site obligations over the generated census (each is kernel-checked by vm_compute on every run). *)
+Definition fixup_style_values_ok : bool :=
+  match g_fixup_style_values with
+  | [(SPrefix, 0%Z); (SSuffix, 1%Z); (SNone, 2%Z)] => true
+  | _ => false
+  end.
+(* "VEC", "VEC_ORIGIN", "VEC_LINE" *)
+Definition position_key_types_ok : bool :=
+  strs_eqb g_fixup_key_position_types [[86;69;67]; [86;69;67;95;79;82;73;71;73;78]; [86;69;67;95;76;73;78;69]]%N.
+Definition template_calls_readonly : bool :=
+  forallb (fun c => existsb (str_eqb c) g_template_readonly_methods) g_collapse_template_method_calls.
 
 (** *** Positions: the originals rotated by the instance angles, then offset by its origin. *)
 Theorem c17_localise_point : forall p o m, g_vec_localise p o m = place p o m.
